@@ -1,6 +1,6 @@
 import GoSquare.Proofs.BuildSquare
 import GoSquare.Proofs.SquareWF
-import GoSquare.Properties.C06
+import GoSquare.Proofs.C06Core
 import GoSquare.Properties.C18
 /-! # C03 — every produced square is a well-formed, namespace-ordered power-of-two square
 
